@@ -48,10 +48,10 @@ def run(ctx):
     models = B.model_side(cases)
     for (kind, v), m in zip(cases, models):
         opts = dict(wide=ctx.rng.random() < 0.3, vpstyle=ctx.rng.choice([0, 0, 1]),
-                    prov=ctx.rng.choice(A.PROVENANCES) if ctx.rng.random() < 0.2 else None)
+                    prov=ctx.rng.choice(A.PROVENANCES) if ctx.rng.random() < 0.2 else None, scalars=ctx.rng.choice([None, None, "np", "py"]))
         r = B.real_side(kind, v, **opts)
         ctx.case((kind, v), nontrivial=A.nontrivial(kind, v), sample=dict(kind=kind, v=v) if len(repr(v)) < 700 else None,
-                 tags=B.shape_tags(kind, v) + (["f64-input"] if opts["wide"] else []) + ([f"prov={opts['prov']}"] if opts["prov"] else []))
+                 tags=B.shape_tags(kind, v) + (["f64-input"] if opts["wide"] else []) + ([f"prov={opts['prov']}"] if opts["prov"] else []) + ([f"scalars={opts['scalars']}"] if opts.get("scalars") else []))
         judge(ctx, kind, v, opts, r, m)
     from sessions.c01 import life_cycles
     life_cycles(ctx, judge, ctx.n(350, 8000))
@@ -163,7 +163,7 @@ def replay(path):
             print("capture case:", rp)
             continue
         kind, v = rp["kind"], A.norm(rp["v"])
-        r = B.real_side(kind, v, wide=rp.get("wide", False), vpstyle=rp.get("vpstyle", 0), prov=rp.get("prov"))
+        r = B.real_side(kind, v, wide=rp.get("wide", False), vpstyle=rp.get("vpstyle", 0), prov=rp.get("prov"), scalars=rp.get("scalars"))
         ok = "exc" not in r and r["nbytes"] == len(r["enc"]) == r["tell"] and all(a == b for a, b in r["items"])
         print(kind, "nBytes", r.get("nbytes"), "written", len(r.get("enc", b"")), "consumed", r.get("tell"), "->", "holds" if ok else "FAILS")
         rc |= 0 if ok else 1
